@@ -2,6 +2,12 @@
 
 package sml
 
+import (
+	"fmt"
+
+	"github.com/wolimst/lib-secs2-hsms-go/pkg/ast"
+)
+
 // Contracts and specification functions for the SML parser (see /verif/DESIGN.md).
 // The parser and lexer objects are private mutable state of one Parse call ("owns").
 
@@ -248,6 +254,8 @@ func specSizeOK(size int, lower int, upper int) bool {
 //@   owns sml.parser, sml.lexer, sml.token, sml.parseError, map[string]bool
 //@   ensures len(errors) > 0 ==> len(messages) == 0
 //@   ensures fresh(errors) && fresh(warnings)
+//@   rac_ensures len(errors) == 0 ==> racFixedPoint(messages)
+//@   rac_ensures racDiagnosticsOK(input, errors) && racDiagnosticsOK(input, warnings)
 //@   loop 1
 //@     invariant fresh(p) && fresh(p.messages)
 //@   loop 2
@@ -364,3 +372,44 @@ func specSizeOK(size int, lower int, upper int) bool {
 //@   ensures sent(l.tokens) == old(sent(l.tokens)) + 1 && lastsent(l.tokens).typ == tokenTypeMessageEnd ==> result == lexMessageHeader && l.start == l.pos
 //@   loop 1
 //@     invariant lexOK(l) && sent(l.tokens) == old(sent(l.tokens))
+
+// ---------------------------------------------------------------------------------------------
+// Run-time oracles (rac_ensures only: bounded search and replay, never counted as proved).
+
+// racFixedPoint: printing each returned message and parsing it again returns exactly that message (C04, second sentence).
+func racFixedPoint(msgs []*ast.DataMessage) bool {
+	for _, m := range msgs {
+		again, errs, warns := Parse(m.String())
+		if len(errs) != 0 || len(warns) != 0 || len(again) != 1 {
+			return false
+		}
+		a := again[0]
+		if a.String() != m.String() || a.Name() != m.Name() || a.StreamCode() != m.StreamCode() || a.FunctionCode() != m.FunctionCode() ||
+			a.WaitBit() != m.WaitBit() || a.Direction() != m.Direction() || len(a.Variables()) != len(m.Variables()) {
+			return false
+		}
+		for i, v := range m.Variables() {
+			if a.Variables()[i] != v {
+				return false
+			}
+		}
+	}
+	return true
+}
+
+// racDiagnosticsOK: every diagnostic reads "Ln x, Col y: text" with x, y >= 1 and x not beyond the last line of the input.
+func racDiagnosticsOK(input string, diags []string) bool {
+	lines := 1
+	for i := 0; i < len(input); i++ {
+		if input[i] == '\n' {
+			lines++
+		}
+	}
+	for _, d := range diags {
+		var ln, col int
+		if n, err := fmt.Sscanf(d, "Ln %d, Col %d:", &ln, &col); err != nil || n != 2 || ln < 1 || col < 1 || ln > lines {
+			return false
+		}
+	}
+	return true
+}
